@@ -37,7 +37,7 @@ const (
 // Outcome is the (constant) behaviour of one callback.
 type Outcome struct {
 	Kind    OutcomeKind
-	Status  int        // CbReject: the chosen status
+	Status  int        // CbReject: the chosen status; 0 = built without ws.RejectionStatus (answered with 500)
 	Reason  string     // CbError/CbReject: the error text
 	Headers []HeaderKV // CbReject: rejection headers; CbAccept on OnBeforeUpgrade: the headers it returns
 }
@@ -47,10 +47,10 @@ func (o Outcome) Fails() bool { return o.Kind == CbError || o.Kind == CbReject }
 
 // WantStatus is the HTTP status the property promises when this callback objects.
 func (o Outcome) WantStatus() int {
-	if o.Kind == CbReject {
+	if o.Kind == CbReject && o.Status != 0 {
 		return o.Status
 	}
-	return 500
+	return 500 // plain error, or a rejection that chose no status
 }
 
 func (o Outcome) String() string {
@@ -61,6 +61,9 @@ func (o Outcome) String() string {
 		return "accept"
 	case CbError:
 		return "error"
+	}
+	if o.Status == 0 {
+		return "reject(no status)"
 	}
 	return fmt.Sprintf("reject(%d)", o.Status)
 }
@@ -113,7 +116,7 @@ func (p ExtPolicy) fails(m ExtMode) bool {
 }
 
 func (p ExtPolicy) wantStatus() int {
-	if p.Act == ExtReject {
+	if p.Act == ExtReject && p.Status != 0 {
 		return p.Status
 	}
 	return 500
@@ -205,6 +208,10 @@ type Verdict struct {
 	// Offers are the client's offers in order.
 	OffersKnown bool
 	Offers      []Option
+	// ExtLines describes each Sec-WebSocket-Extensions line in order: "fail"
+	// (a plain option list in which the negotiator objects to an offer), "ok"
+	// (plain list, no objection) or "odd" (not a plain option list).
+	ExtLines []string
 }
 
 // Allows reports whether status is acceptable for a MustFail verdict.
@@ -475,12 +482,21 @@ func Classify(r *Request, c *Config) Verdict {
 	v.OffersKnown = true
 	for _, ev := range extVals {
 		opts, strict := StrictOptions(ev)
+		kind := "ok"
 		if !strict {
 			v.OffersKnown = false
-			v.Offers = nil
-			break
+			kind = "odd"
 		}
+		for _, o := range opts {
+			if p, ok := c.Ext[o.Name]; ok && p.fails(c.ExtMode) {
+				kind = "fail"
+			}
+		}
+		v.ExtLines = append(v.ExtLines, kind)
 		v.Offers = append(v.Offers, opts...)
+	}
+	if !v.OffersKnown {
+		v.Offers = nil
 	}
 	if c.ExtMode != ExtNone {
 		if !v.OffersKnown {
